@@ -427,8 +427,7 @@ def whash(w):
 # one batch: implementation, oracle, metamorphic laws
 # --------------------------------------------------------------------------
 def classify_tags(info, clause):
-    cls = "doubly_positive_swap" if info["doubly_positive"] else ("swap" if info["swap"] else "plain")
-    return {"class": cls, "clause": clause}
+    return {"class": "swap" if info["swap"] else "plain", "clause": clause}
 
 
 def check_batch(ctx, batch, fs, ms, stats, do_meta=True):
